@@ -217,11 +217,13 @@ OpGuard(op, sp, hd, code, rs, k, v, prop, hk, ec, f) ==
          /\ (prop => o.r \notin {"ok", "blocked"})
          /\ FaultOK(f, IF prop THEN o.evs \o Handle(o.w, ExcOf(o.r), 0, hk, ec, IF o.evs = <<>> THEN f ELSE "none").evs ELSE o.evs)
 Op(op, sp, hd, code, rs, k, v, prop, hk, ec, f) ==
-    /\ OpGuard(op, sp, hd, code, rs, k, v, prop, hk, ec, f)
+    /\ pc = "resp" /\ blk = "none"
     /\ LET o == OpResult(op, sp, hd, code, rs, k, v, f)
            g == IF prop THEN Handle(o.w, ExcOf(o.r), 0, hk, ec, IF o.evs = <<>> THEN f ELSE "none") ELSE H(o.w, <<>>, FALSE)
            evs == o.evs \o g.evs
-       IN /\ w' = Settle(g.w, gone)
+       IN /\ (prop => o.r \notin {"ok", "blocked"})          \* = OpGuard, evaluated once
+          /\ FaultOK(f, evs)
+          /\ w' = Settle(g.w, gone)
           /\ pc' = IF prop THEN "done" ELSE "resp"
           /\ blk' = IF o.r = "blocked" THEN op ELSE "none"
           /\ mon' = MonFold(mon, evs, Known(w))
@@ -235,8 +237,9 @@ Op(op, sp, hd, code, rs, k, v, prop, hk, ec, f) ==
 RaiseGuard(x, hk, ec, f) == pc = "resp" /\ blk = "none"
     /\ FaultOK(f, Handle(w, IF x = "boom" THEN "boom" ELSE "http", IF x = "http" THEN 400 ELSE 204, hk, ec, f).evs)
 Raise(x, hk, ec, f) ==
-    /\ RaiseGuard(x, hk, ec, f)
+    /\ pc = "resp" /\ blk = "none"
     /\ LET g == Handle(w, IF x = "boom" THEN "boom" ELSE "http", IF x = "http" THEN 400 ELSE 204, hk, ec, f) IN
+         /\ FaultOK(f, g.evs)                                  \* = RaiseGuard
          /\ w' = Settle(g.w, gone) /\ pc' = "done" /\ mon' = MonFold(mon, g.evs, Known(w))
          /\ last' = [L0 EXCEPT !.a = "raise", !.x = x, !.hk = hk, !.ec = ec, !.f = f, !.r = "ok", !.evs = g.evs,
                                !.esc = g.esc, !.pre = View(w), !.fin = TRUE]
@@ -250,8 +253,9 @@ ReturnResult(ec, f) ==
     ELSE H(c.w, c.evs, FALSE)
 ReturnGuard(ec, f) == pc = "resp" /\ blk = "none" /\ FaultOK(f, ReturnResult(ec, f).evs)
 Return(ec, f) ==
-    /\ ReturnGuard(ec, f)
+    /\ pc = "resp" /\ blk = "none"
     /\ LET g == ReturnResult(ec, f) IN
+         /\ FaultOK(f, g.evs)                                  \* = ReturnGuard
          /\ w' = Settle(g.w, gone) /\ pc' = "done" /\ mon' = MonFold(mon, g.evs, Known(w))
          /\ last' = [L0 EXCEPT !.a = "return", !.ec = ec, !.f = f, !.r = "ok", !.evs = g.evs, !.esc = g.esc,
                                !.pre = View(w), !.fin = TRUE]
